@@ -162,6 +162,8 @@ static void ex_flush(const char *name)
 typedef struct {
     int op, mode, cfg;
     ph_fmt_t sf, mf, df;
+    int pres;        /* 0: plain strips; 1: the source strip is stored mirrored and read through a flipping transform (nearest): the transformed-image
+                      * fetchers deliver it; 2: the same for the mask.  In 1/2 the mask value is the fastest-running index of the enumeration. */
 } fmt_ctx;
 
 static const int CH5_N = 5;
@@ -218,6 +220,7 @@ static void fmt_store(const ph_fmt_t *f, void *row, int x, uint32_t raw, const f
 }
 
 #define FW 128   /* strip width for the format spaces */
+static const char *PRESN[3] = { "", " [source strip read through a flipping transform]", " [mask strip read through a flipping transform]" };
 
 static int valid_premul(const rc_real s[4], const rc_real d[4])
 {
@@ -237,8 +240,9 @@ static void fmt_case(uint64_t idx, void *vctx)
     static uint32_t Draw[FW];
     for (uint64_t i = 0; i < n; i++) {
         uint64_t p = p0 + i; uint32_t raw; float fl[4];
-        fmt_make_pixel(&c->sf, p % ns, &raw, fl, S[i], S8[i]); fmt_store(&c->sf, sbuf, (int)i, raw, fl);
-        if (c->mode) { fmt_make_pixel(&c->mf, (p / ns) % nm, &raw, fl, M[i], M8[i]); fmt_store(&c->mf, mbuf, (int)i, raw, fl); }
+        uint64_t ks = c->pres ? (p / nm) % ns : p % ns, km = c->pres ? p % nm : (p / ns) % nm;
+        fmt_make_pixel(&c->sf, ks, &raw, fl, S[i], S8[i]); fmt_store(&c->sf, sbuf, c->pres == 1 ? (int)(n - 1 - i) : (int)i, raw, fl);
+        if (c->mode) { fmt_make_pixel(&c->mf, km, &raw, fl, M[i], M8[i]); fmt_store(&c->mf, mbuf, c->pres == 2 ? (int)(n - 1 - i) : (int)i, raw, fl); }
         fmt_make_pixel(&c->df, p / ns / nm, &raw, fl, D[i], D8[i]); fmt_store(&c->df, dbuf, (int)i, raw, fl); Draw[i] = raw;
     }
     ph_set_cfg(c->cfg);
@@ -247,6 +251,11 @@ static void fmt_case(uint64_t idx, void *vctx)
     pixman_image_t *msk = c->mode ? pixman_image_create_bits(c->mf.code, (int)n, 1, mbuf, sizeof mbuf - 32) : NULL;
     if (!src || !dst || (c->mode && !msk)) { vf_violation("c01-create-failed", "image creation failed for %s/%s/%s", c->sf.name, c->mf.name, c->df.name); return; }
     if (c->mode == RC_MASK_CA) pixman_image_set_component_alpha(msk, 1);
+    if (c->pres) {
+        pixman_transform_t flip = { { { -pixman_fixed_1, 0, pixman_int_to_fixed((int)n) }, { 0, pixman_fixed_1, 0 }, { 0, 0, pixman_fixed_1 } } };
+        pixman_image_t *t = c->pres == 1 ? src : msk;
+        pixman_image_set_transform(t, &flip); pixman_image_set_filter(t, PIXMAN_FILTER_NEAREST, NULL, 0);
+    }
     pixman_image_composite32(c->op, src, msk, dst, 0, 0, 0, 0, 0, 0, (int)n, 1);
     vf_count_libcalls(1);
     pixman_image_unref(src); pixman_image_unref(dst); if (msk) pixman_image_unref(msk);
@@ -270,8 +279,8 @@ static void fmt_case(uint64_t idx, void *vctx)
             for (int k = (c->df.bpp == 128 ? 0 : 1); k < 4; k++) {
                 rc_real diff = (rc_real)g[k] - r[k]; if (diff < 0) diff = -diff;
                 if (!(diff <= 1e-4L)) {   /* also catches NaN */
-                    vf_violation("c01-float-dest-mismatch", "op=%s %s cfg=[%s] %s<-%s mask %s, strip pixel %llu: channel %c got %.7f, equations give %.7Lf",
-                                 rc_op_name(c->op), mode_name(c->mode), ph_cfg_name(c->cfg, cfgn, sizeof cfgn), c->df.name, c->sf.name, c->mode ? c->mf.name : "-",
+                    vf_violation("c01-float-dest-mismatch", "op=%s %s cfg=[%s] %s<-%s mask %s%s, strip pixel %llu: channel %c got %.7f, equations give %.7Lf",
+                                 rc_op_name(c->op), mode_name(c->mode), ph_cfg_name(c->cfg, cfgn, sizeof cfgn), c->df.name, c->sf.name, c->mode ? c->mf.name : "-", PRESN[c->pres],
                                  (unsigned long long)(p0 + i), "argb"[k], g[k], r[k]);
                     return;
                 }
@@ -288,8 +297,8 @@ static void fmt_case(uint64_t idx, void *vctx)
             uint32_t e8 = rc_exact_pixel(c->op, c->mode, s8, m8, d8);
             uint32_t exp = ph_from_8888(&c->df, e8), dm = ph_defined_mask(&c->df);
             if ((got & dm) != (exp & dm)) {
-                vf_violation("c01-format-exact-mismatch", "op=%s %s cfg=[%s] dest %s (raw %x) <- src %s (as 8888 %08x) mask %s (%08x): got raw %x, equations give %x (defined bits %x), strip pixel %llu",
-                             rc_op_name(c->op), mode_name(c->mode), ph_cfg_name(c->cfg, cfgn, sizeof cfgn), c->df.name, Draw[i], c->sf.name, s8, c->mode ? c->mf.name : "-", m8,
+                vf_violation("c01-format-exact-mismatch", "op=%s %s cfg=[%s] dest %s (raw %x) <- src %s (as 8888 %08x) mask %s (%08x)%s: got raw %x, equations give %x (defined bits %x), strip pixel %llu",
+                             rc_op_name(c->op), mode_name(c->mode), ph_cfg_name(c->cfg, cfgn, sizeof cfgn), c->df.name, Draw[i], c->sf.name, s8, c->mode ? c->mf.name : "-", m8, PRESN[c->pres],
                              got, exp, dm, (unsigned long long)(p0 + i));
                 return;
             }
@@ -302,8 +311,8 @@ static void fmt_case(uint64_t idx, void *vctx)
                 if (!dw[k]) continue;
                 unsigned u = (got >> dsft[k]) & ((1u << dw[k]) - 1);
                 if (!within(u, r[k], steps, dw[k])) {
-                    vf_violation((rc_is_hsl(c->op) && c->mode == RC_MASK_UNIFIED) ? "c01-hsl-masked" : "c01-format-tolerance-mismatch", "op=%s %s cfg=[%s] dest %s (raw %x) <- src %s mask %s, strip pixel %llu: channel %c got %u of %u, equations give %.5Lf (= %.3Lf), tolerance %d",
-                                 rc_op_name(c->op), mode_name(c->mode), ph_cfg_name(c->cfg, cfgn, sizeof cfgn), c->df.name, Draw[i], c->sf.name, c->mode ? c->mf.name : "-",
+                    vf_violation((rc_is_hsl(c->op) && c->mode == RC_MASK_UNIFIED) ? "c01-hsl-masked" : "c01-format-tolerance-mismatch", "op=%s %s cfg=[%s] dest %s (raw %x) <- src %s mask %s%s, strip pixel %llu: channel %c got %u of %u, equations give %.5Lf (= %.3Lf), tolerance %d",
+                                 rc_op_name(c->op), mode_name(c->mode), ph_cfg_name(c->cfg, cfgn, sizeof cfgn), c->df.name, Draw[i], c->sf.name, c->mode ? c->mf.name : "-", PRESN[c->pres],
                                  (unsigned long long)(p0 + i), "argb"[k], u, (1u << dw[k]) - 1, r[k], rc_clamp01(r[k]) * ((1u << dw[k]) - 1), steps);
                     return;
                 }
@@ -533,7 +542,12 @@ int main(int argc, char **argv)
                     uint64_t cap = th ? 2048 : 256;
                     if (strips > cap) strips = cap;
                     fmt_add(&c, strips);
-                    if (th && mi == 0) { c.cfg = PH_CFG_GENERAL; fmt_add(&c, strips); }
+                    if (th && mi == 0) { c.cfg = PH_CFG_GENERAL; fmt_add(&c, strips); c.cfg = PH_CFG_DEFAULT; }
+                    /* the same strips delivered by the transformed-image fetchers (source, and mask where there is one) */
+                    uint64_t vcap = th ? 512 : 64, vs = strips > vcap ? vcap : strips;
+                    if (th || mi || (si % 3 == di % 3)) { c.pres = 1; fmt_add(&c, vs); }
+                    if (mi) { c.pres = 2; fmt_add(&c, vs); }
+                    c.pres = 0;
                 }
             }
         }
@@ -542,8 +556,8 @@ int main(int argc, char **argv)
     vf_space_run("shared-storage-source-and-mask", 2 * 5 * 4 * 3 * 3 * 2 * 2, alias_case, NULL);
     vf_space_run("solid-fill-sources-16bit", (uint64_t)RC_NOPS * 11 * 3 * 4 * 3 * 2, solid_case, NULL);
     vf_bounds = th ? "exact: 13 ops x {none: full 2^32 (sc,sa,dc,da); unified: (sc,sa,ma) full 2^24 x (dc,da) in B8^2 + alpha cube; CA: (sc,mc,ma) full 2^24 x (sa,dc,da) in B6^3 and (sc,sa,mc) full 2^24 x (dc,da) in T^2 x ma in B6 [default chain; boundary alphabets under general-only]}; "
-                     "tolerance: 40 ops x 3 modes x B8^4..6 + full (sa,da) plane; formats: 53 ops x 17x17 format pairs x 5 mask presentations x per-channel {0,1,mid,max-1,max} (first 2048 strips of 128); cfgs default+general"
+                     "tolerance: 40 ops x 3 modes x B8^4..6 + full (sa,da) plane; formats: 53 ops x 17x17 format pairs x 5 mask presentations x per-channel {0,1,mid,max-1,max} (first 2048 strips of 128), and again with the source / the mask delivered by the transformed-image fetchers (first 512 strips, mask value fastest); cfgs default+general"
                    : "exact: 13 ops x 3 mask modes x B8^4..6 + (sa,ma,da) full 2^24 cube; tolerance: 40 ops x 3 modes x B8^4..5 (CA: B8^4 x B6^2) + full (sa,da) plane x B6^2; "
-                     "formats: 11 ops x 17x17 format pairs (masked: a third) x per-channel 5-value alphabets (first 256 strips of 128); cfgs default+general";
+                     "formats: 11 ops x 17x17 format pairs (masked: a third) x per-channel 5-value alphabets (first 256 strips of 128), and again with the source / the mask delivered by the transformed-image fetchers (first 64 strips, mask value fastest); cfgs default+general";
     return vf_finish();
 }
